@@ -764,6 +764,9 @@ def c17(ctx):
             FW.r_forward_ingest(ctx, db, e, state_assume=R.weights_assumer(db, e, False))
         if t.endswith("WeightedMeanWithError"):
             N.r_effective_len(ctx, db, e, scen)
+        if t in ("moments::Variance", "moments::Skewness", "moments::Kurtosis"):
+            # "so error() is a real number": wherever variance_of_mean is defined (n >= 1: 0 for one observation) error() is its root, not NaN
+            R.r_sentinel(ctx, db, e, t.split("::")[-1], only=("variance_of_mean", "error", "error_mean"))
     for t, N_ in moment_types(ctx, db):
         e = Est(db, t)
         n += 1
